@@ -78,13 +78,27 @@ Proof. vm_compute. reflexivity. Qed.
     for it, returns nil; everything is at rest and closed *)
 Definition graceful_schedule : list label :=
   [LEmit 0; LDeliver 0; LCall 0; LClose 0; LClose 0; LClose 0; LRun; LRun; LLoop 0; LLoop 0; LMsg 0;
-   LHcClosing 0; LHc 0; LChanClose 0; LPump 0; LPump 0; LHc 0; LHc 0; LLoop 0; LLoop 0; LLoop 0; LW1; LW2;
+   LHcClosing 0; LHc 0; LChanClose 0; LPump 0; LPump 0; LSubCloseRet 0; LHc 0; LHc 0; LLoop 0; LLoop 0; LLoop 0; LW1; LW2;
    LFinish 0; LMsg 0; LMsg 0; LMsg 0; LW2; LW2; LWaitDone 0; LClose 0; LClose 0; LRun].
 Lemma graceful_example :
   match replay (init 1 ignore_ctx true true true) graceful_schedule with
   | Some s => returned s 0 RNil && quiescent_b s && Nat.eqb (sub_closes s 0) 1 && Nat.eqb (pub_closes s 0) 1 &&
               match run s with RDone => true | _ => false end && negb (panicked s) &&
               match mon_run 1 (fun _ => true) (trace (init 1 ignore_ctx true true true) graceful_schedule) with [] => true | _ => false end
+  | None => false
+  end = true.
+Proof. vm_compute. reflexivity. Qed.
+
+(** a subscriber whose Close() never returns and a handler that never finishes: Close still
+    returns the timeout error, so does a second call, and Run returns *)
+Definition blocked_sub_close_schedule : list label :=
+  [LEmit 0; LDeliver 0; LLoop 0; LLoop 0; LMsg 0; LCall 0; LClose 0; LClose 0; LClose 0; LHcClosing 0; LHc 0;
+   LTimeout 0; LClose 0; LClose 0; LRun; LRun; LRun; LCall 1; LClose 1; LClose 1; LClose 1].
+Lemma blocked_sub_close_example :
+  match replay (init 1 ignore_ctx true true true) blocked_sub_close_schedule with
+  | Some s => returned s 0 RErr && returned s 1 RErr && match run s with RDone => true | _ => false end &&
+              match hc s 0 with HCInSubClose => true | _ => false end &&
+              match mp s 0 with MRunning => true | _ => false end
   | None => false
   end = true.
 Proof. vm_compute. reflexivity. Qed.
